@@ -13,7 +13,9 @@ def operOfSExp : SExp → Option Operator
       let k ← decStr k
       let bits ← decBits bp
       let fx ← decNat fx
-      pure ⟨k, Float.ofBits bits, fx⟩
+      -- binding powers are float32 values sent widened to binary64
+      let bp ← BP.ofF64Bits bits
+      pure ⟨k, bp, fx⟩
   | _ => none
 
 def tokToSExp (t : Token) : SExp :=
